@@ -345,61 +345,51 @@ func (P *Prog) checkSink(r *Result) {
 		}
 		r.sawFunc(fname(fn))
 		errParam := ssa.Value(fn.Params[2])
-		S := map[*ssa.BasicBlock]bool{}
-		var appendBlocks []*ssa.BasicBlock
-		eachInstr(fn, func(b *ssa.BasicBlock, _ int, in ssa.Instruction) {
-			// a store / map update whose value is append(<collection of receiver>, err)
-			var val ssa.Value
+		recvParam := ssa.Value(fn.Params[0])
+		// on the decision paths of Add (helpers entered): a store / map update into memory of the receiver
+		// whose value is append(<something>, issue)
+		spec := &pathSpec{name: "sink-add", inlineAll: true}
+		spec.keep = func(f *ssa.Function) bool { return f.Parent() == nil && !formulaHelper(f) }
+		spec.cond = func(iff *ssa.If) (string, string, string) { return "", "", "" }
+		spec.events = func(in ssa.Instruction) []pathItem {
+			var val, tgt ssa.Value
 			switch x := in.(type) {
 			case *ssa.Store:
-				val = x.Val
+				val, tgt = x.Val, x.Addr
 			case *ssa.MapUpdate:
-				val = x.Value
+				val, tgt = x.Value, x.Map
 			default:
-				return
+				return nil
 			}
-			c, ok := val.(*ssa.Call)
-			if !ok {
-				return
-			}
-			ci := callOf(c)
-			if ci.builtin != "append" || len(c.Call.Args) < 2 {
-				return
-			}
-			if !sliceLitContains(c.Call.Args[1], errParam) {
-				return
-			}
-			// destination must be reachable from the receiver
-			fromRecv := false
-			var tgt ssa.Value
-			switch x := in.(type) {
-			case *ssa.Store:
-				tgt = x.Addr
-			case *ssa.MapUpdate:
-				tgt = x.Map
+			c, ok := cv(val).(*ssa.Call)
+			if !ok || callOf(c).builtin != "append" || len(c.Call.Args) < 2 || !sliceLitContains(c.Call.Args[1], errParam) {
+				return nil
 			}
 			for _, rt := range P.rootsOf(tgt) {
-				if rt.kind == rkParam && rt.v == ssa.Value(fn.Params[0]) {
-					fromRecv = true
+				if rt.kind == rkParam && rt.v == recvParam {
+					return []pathItem{{kind: "APPEND-ISSUE", in: in}}
 				}
 			}
-			if fromRecv {
-				S[b] = true
-				appendBlocks = append(appendBlocks, b)
+			return nil
+		}
+		res := P.enumPathsSpec(fn, nil, spec)
+		missing, twice := "", false
+		for _, p := range res.paths {
+			if p.end != "RETURN" {
+				continue
 			}
-		})
-		ok, bad := mustPassThrough(fn.Blocks[0], S)
-		twice := false
-		for _, a := range appendBlocks {
-			for _, b := range appendBlocks {
-				if a != b && reachFromSuccs(a, nil)[b] {
-					twice = true
-				}
+			switch n := p.count("APPEND-ISSUE"); {
+			case n == 0 && missing == "":
+				missing = p.String()
+			case n > 1:
+				twice = true
 			}
 		}
 		switch {
-		case !ok:
-			r.bad("C01/sink", fname(fn), P.ipos(bad.Instrs[len(bad.Instrs)-1]), "a path returns without appending the issue to the receiver's collection")
+		case res.capHit:
+			r.undecided("C01/sink", fname(fn), P.pos(fn.Pos()), "too many paths to enumerate")
+		case missing != "":
+			r.bad("C01/sink", fname(fn), P.pos(fn.Pos()), "a path returns without appending the issue to the receiver's collection  [path: "+missing+"]")
 		case twice:
 			r.bad("C01/sink", fname(fn), P.pos(fn.Pos()), "the issue can be appended twice on one path")
 		default:
